@@ -9,9 +9,11 @@
   * `Dict`      `DictRefsContainer` (a plain map; does *not* follow symrefs on update).
   * `Disk`      `DiskRefsContainer` at the logical level: loose files + directories that exist below
                 the git dir + packed map + peeled map; loose precedence; the directory/file conflict
-                probes exactly as coded (ancestors against *packed* refs in `set_if_equals` only,
-                `os.makedirs`, lock-file creation and the final rename against loose files/dirs);
+                probes exactly as coded (`_check_packed_conflict` against packed ancestors and
+                descendants in all three writers, `os.makedirs`, lock-file creation and the final
+                rename against loose files/dirs, `_remove_empty_directories`);
                 `pack_refs`/`add_packed_refs`, `_remove_packed_ref`, empty-parent clean-up.
+                (The model of the code before the C16 fix series is kept in Model/RefsOld.lean.)
   * `Reftable`  `ReftableRefsContainer.set_if_equals/add_if_new/remove_if_equals/set_symbolic_ref`
                 (merged view of all tables = one raw map).
   * `namespaced` `NamespacedRefsContainer` as a wrapper over any `Ops`.
@@ -157,10 +159,9 @@ def addIfNew (m : Map) (name : Name) (v : Val) : Res Bool × Map :=
 def removeIfEquals (m : Map) (name : Name) (old : Option Val) : Res Bool × Map :=
   if !casOk (m.get name) old then (.ok false, m) else (.ok true, m.del name)
 
+/-- (the old value is followed for the log only; a `SymrefLoop` there is caught) -/
 def setSymbolicRef (m : Map) (name other : Name) : Res Unit × Map :=
-  match follow (readRef m) name with
-  | .error e => (.error e, m)
-  | .ok _ => (.ok (), m.set name (symref ++ other))
+  (.ok (), m.set name (symref ++ other))
 end Dict
 
 /-! ### DiskRefsContainer -/
@@ -221,12 +222,17 @@ def lockMkdirs (d : Disk) (name : Name) : Res Disk :=
   if (ancestors name).any d.isFile then .error .os
   else .ok { d with dirs := addDirs d.dirs (ancestors name) }
 
-/-- creating `<name>.lock` without `ensure_dir_exists` (`set_symbolic_ref`): the parent directory
-must already exist -/
-def lockNoMkdirs (d : Disk) (name : Name) : Res Unit :=
-  match parent? name with
-  | none => .ok ()                                  -- directly in the git dir (HEAD)
-  | some p => if p ∈ d.dirs then .ok () else .error .os
+/-- `_check_packed_conflict(name)` raises: a leading part of `name` is a packed ref
+(`NotADirectoryError`) or a packed ref lives below `name` (`IsADirectoryError`) -/
+def packedConflict (d : Disk) (name : Name) : Bool :=
+  (ancestors name).any (fun p => (d.packed.get p).isSome) ||
+    d.packed.keys.any (fun k => decide (name ∈ ancestors k))
+
+/-- `_remove_empty_directories(refpath(name))`: bottom-up `rmdir` of `name` and everything below it,
+failures ignored — every directory at or below `name` that has no loose file beneath it goes away -/
+def pruneEmpty (d : Disk) (name : Name) : Disk :=
+  { d with dirs := d.dirs.filter fun q =>
+      !((q == name || decide (name ∈ ancestors q)) && d.files.keys.all (fun f => !decide (q ∈ ancestors f))) }
 
 /-- `_GitFile.close()`: rename the lock file over `name`; `IsADirectoryError` when `name` is a directory -/
 def commitFile (d : Disk) (name : Name) (content : Val) : Res Disk :=
@@ -237,15 +243,15 @@ def setIfEquals (d : Disk) (name : Name) (old : Option Val) (new : Val) : Res Bo
   else if !validRefValue new then (.error .value, d)
   else
     let real := realname d.readRef name
-    -- "make sure none of the ancestor folders is in packed refs"
-    if (ancestors real).any (fun p => (d.packed.get p).isSome) then (.error .os, d)
+    -- "make sure neither an ancestor folder nor a descendant is in packed refs"
+    if d.packedConflict real then (.error .os, d)
     else match d.lockMkdirs real with
       | .error e => (.error e, d)
       | .ok d1 =>
         if !casOk (d1.origRef real) old then (.ok false, d1)
         else if d1.origRef real == some new then (.ok true, d1)     -- "Ref already has desired value"
-        else match d1.commitFile real new with
-          | .error e => (.error e, d1)
+        else match (d1.pruneEmpty real).commitFile real new with
+          | .error e => (.error e, d1.pruneEmpty real)
           | .ok d2 => (.ok true, d2)
 
 def pathExists (d : Disk) (p : Bytes) : Bool := d.isFile p || decide (p ∈ d.dirs)
@@ -259,12 +265,13 @@ def addIfNew (d : Disk) (name : Name) (v : Val) : Res Bool × Disk :=
       else
         let real := (names.getLast?).getD name
         if !checkRefname real then (.error .refFormat, d)
+        else if d.packedConflict real then (.error .os, d)
         else match d.lockMkdirs real with
           | .error e => (.error e, d)
           | .ok d1 =>
-            if d1.pathExists real || (d1.packed.get name).isSome then (.ok false, d1)
-            else match d1.commitFile real v with
-              | .error e => (.error e, d1)
+            if (d1.pruneEmpty real).pathExists real || (d1.packed.get real).isSome then (.ok false, d1.pruneEmpty real)
+            else match (d1.pruneEmpty real).commitFile real v with
+              | .error e => (.error e, d1.pruneEmpty real)
               | .ok d2 => (.ok true, d2)
 
 /-- `_remove_packed_ref` -/
@@ -293,24 +300,24 @@ def removeIfEquals (d : Disk) (name : Name) (old : Option Val) : Res Bool × Dis
     | .error e => (.error e, d)
     | .ok d1 =>
       if !casOk (d1.origRef name) old then (.ok false, d1)   -- `return False` inside `try`: no clean-up
-      else if name ∈ d1.dirs then (.error .os, d1)       -- `os.remove` of a directory
       else
-        let d2 := { d1 with files := d1.files.del name }
-        let d3 := d2.removePacked name
+        -- the packed entry goes first; then the loose file is unlinked — or, when a directory sits at
+        -- its path, that directory is pruned as far as it is empty (never an error)
+        let d2 := (({ d1 with files := d1.files.del name } : Disk).removePacked name)
+        let d3 := if name ∈ d2.dirs then d2.pruneEmpty name else d2
         (.ok true, cleanupParents name.length d3 name)
 
 def setSymbolicRef (d : Disk) (name other : Name) : Res Unit × Disk :=
   if !checkRefname name then (.error .refFormat, d)
   else if !checkRefname other then (.error .refFormat, d)
-  else match d.lockNoMkdirs name with
+  else if d.packedConflict name then (.error .os, d)
+  else match d.lockMkdirs name with
     | .error e => (.error e, d)
-    | .ok _ =>
-      match follow d.readRef name with                   -- `sha = self.follow(name)[-1]` for the log
-      | .error e => (.error e, d)
-      | .ok _ =>
-        match d.commitFile name (symref ++ other) with
-        | .error e => (.error e, d)
-        | .ok d1 => (.ok (), d1)
+    | .ok d1 =>
+      -- (the old value is followed for the log only; a `SymrefLoop` there is caught)
+      match (d1.pruneEmpty name).commitFile name (symref ++ other) with
+      | .error e => (.error e, d1.pruneEmpty name)
+      | .ok d2 => (.ok (), d2)
 
 /-- `allkeys()`: HEAD if its file exists, loose files below `refs/` whose *full* name passes
 `check_ref_format`, packed names -/
@@ -319,37 +326,42 @@ def allKeys (d : Disk) : List Name :=
     ++ d.files.keys.filter (fun n => b!"refs/".isPrefixOf n && checkRefFormat n == some true)
     ++ d.packed.keys)
 
-/-- the loop of `add_packed_refs` (entries other than HEAD): remove the loose file (errors
-suppressed: a directory stays), put the value into the packed map; peeled map untouched -/
+/-- the peeled value on record is forgotten when the packed value is replaced by a different one -/
+def peeledAfter (d : Disk) (ref : Name) (target : Val) : Map :=
+  match d.packed.get ref with
+  | some old => if old != target then d.peeled.del ref else d.peeled
+  | none => d.peeled
+
+/-- the loop of `add_packed_refs` (entries other than HEAD): the value goes into the packed map, a stale
+peeled value is dropped, the loose file is removed (after the new packed-refs is in place; errors
+suppressed: a directory stays) -/
 def addPacked (d : Disk) : List (Name × Val) → Disk
   | [] => d
   | (ref, target) :: rest =>
-    addPacked { d with files := d.files.del ref, packed := d.packed.set ref target } rest
+    addPacked { d with files := d.files.del ref, peeled := d.peeledAfter ref target,
+                       packed := d.packed.set ref target } rest
 
-/-- the selection loop of `pack_refs`: `self[ref]` for every candidate; `KeyError` is skipped, any
-other exception (`SymrefLoop`) propagates -/
-def packSelect (d : Disk) (all : Bool) : List Name → Res (List (Name × Val))
-  | [] => .ok []
+/-- the selection loop of `pack_refs`: the ref's own value (`read_ref`, not followed); HEAD, missing or
+empty values and symbolic refs are skipped -/
+def packSelect (d : Disk) (all : Bool) : List Name → List (Name × Val)
+  | [] => []
   | ref :: rest =>
     if ref = headRef then packSelect d all rest
     else if all || localTagPrefix.isPrefixOf ref then
-      match follow d.readRef ref with
-      | .error e => .error e
-      | .ok (_, none) => packSelect d all rest
-      | .ok (_, some sha) =>
-        match packSelect d all rest with
-        | .error e => .error e
-        | .ok l => .ok ((ref, sha) :: l)
+      match d.readRef ref with
+      | none => packSelect d all rest
+      | some c =>
+        if c.isEmpty || symref.isPrefixOf c then packSelect d all rest
+        else (ref, c) :: packSelect d all rest
     else packSelect d all rest
 
 def packRefs (d : Disk) (all : Bool) : Res Unit × Disk :=
-  match packSelect d all d.allKeys with
-  | .error e => (.error e, d)
-  | .ok l => (.ok (), addPacked d l)
+  (.ok (), addPacked d (packSelect d all d.allKeys))
 
 /-- `get_peeled` -/
 def getPeeled (d : Disk) (name : Name) : Res (Option Val) :=
   if (d.packed.get name).isNone then .ok none
+  else if (d.readLoose name).isSome then .ok none          -- a loose ref overrides the packed entry
   else match d.peeled.get name with
     | some p => .ok (some p)
     | none =>
@@ -363,20 +375,20 @@ end Disk
 /-! ### ReftableRefsContainer (merged view of all tables = one raw map) -/
 
 namespace Reftable
-/-- `bytes(old_ref) if old_ref else None` -/
-def oldBytes (old : Option Val) : Option Val :=
+/-- `_matches_old_ref`: `None` = unconditionally, `ZERO_SHA` = the ref must not exist -/
+def matchesOld (cur old : Option Val) : Bool :=
   match old with
-  | some o => if o.isEmpty then none else some o
-  | none => none
+  | none => true
+  | some o => if o = zeroSha then cur.isNone else cur == some o
 
 def setIfEquals (m : Map) (name : Name) (old : Option Val) (new : Val) : Res Bool × Map :=
-  if m.get name != oldBytes old then (.ok false, m) else (.ok true, m.set name new)
+  if !matchesOld (m.get name) old then (.ok false, m) else (.ok true, m.set name new)
 
 def addIfNew (m : Map) (name : Name) (v : Val) : Res Bool × Map :=
   if (m.get name).isSome then (.ok false, m) else (.ok true, m.set name v)
 
 def removeIfEquals (m : Map) (name : Name) (old : Option Val) : Res Bool × Map :=
-  if m.get name != oldBytes old then (.ok false, m) else (.ok true, m.del name)
+  if !matchesOld (m.get name) old then (.ok false, m) else (.ok true, m.del name)
 
 def setSymbolicRef (m : Map) (name other : Name) : Res Unit × Map := (.ok (), m.set name (symref ++ other))
 end Reftable
@@ -458,12 +470,20 @@ def stripNs (pfx : Bytes) (n : Name) : Option Name :=
   if n = headRef || !(b!"refs/").isPrefixOf n then some n
   else if pfx.isPrefixOf n then some (n.drop pfx.length) else none
 
+/-- the target of a symbolic ref is handed out without the prefix `set_symbolic_ref` stored it with
+(a target outside the namespace is left as it is) -/
+def stripSymref (pfx : Bytes) (c : Val) : Val :=
+  if symref.isPrefixOf c then
+    match stripNs pfx (c.drop symref.length) with
+    | some t => symref ++ t
+    | none => c
+  else c
+
 /-- Every operation applies the prefix to the names it is given and delegates.  `read_ref` is the
 base-class one over the namespaced `read_loose_ref`/`get_packed_refs`, i.e. the inner `read_ref` of the
-prefixed name — so the *contents* of a symref are not translated back, and `follow` applies the
-prefix again to a target that already carries it (as coded). -/
+prefixed name, with the target of a symbolic ref stripped of the prefix again. -/
 def namespaced {σ : Type} (o : Ops σ) (pfx : Bytes) : Ops σ :=
-  { readRef := fun s n => o.readRef s (applyNs pfx n),
+  { readRef := fun s n => (o.readRef s (applyNs pfx n)).map (stripSymref pfx),
     allKeys := fun s => dedup ((o.allKeys s).filterMap (stripNs pfx)),
     getPeeled := fun s n => o.getPeeled s (applyNs pfx n),
     setIfEquals := fun s n old new => o.setIfEquals s (applyNs pfx n) old new,
